@@ -364,6 +364,13 @@ class C03:
         if verdict is None or verdict[0] == "ok":
             return
         kind, detail = verdict
+        if kind.startswith("TERMINATION/CRASH"):
+            # same key as for fuzz inputs: the exception, not the placement
+            import re as _re
+
+            msg = _re.sub(r"'[A-Z]\w+' object", "'<node>' object", _re.sub(r"\d+", "N", str(detail.get("detail"))))[:70]
+            rec.violation(f"TERMINATION/CRASH/{msg}", case, detail)
+            return
         if kind.startswith("TERMINATION"):
             rec.violation(kind + "/" + where, case, detail)
             return
